@@ -32,7 +32,8 @@ var c20FP = kit.FPOptions{NilEqualsEmpty: true, Skip: map[string]bool{"initialHi
 // ((addr), (addr, index)); the order in which the evaluator emits records is not observable
 // through the ledger and legitimately differs between generation and validation.
 func c20Norm(d ledgercore.StateDelta) ledgercore.StateDelta {
-	d.Dehydrate()
+	// (no Dehydrate: it clears the lookup caches IN PLACE, and those maps are shared with the delta the
+	// ledger's trackers hold; the caches are skipped by the fingerprint options instead)
 	ad := d.Accts
 	ad.Accts = append([]ledgercore.BalanceRecord(nil), ad.Accts...)
 	sort.Slice(ad.Accts, func(i, j int) bool { return bytes.Compare(ad.Accts[i].Addr[:], ad.Accts[j].Addr[:]) < 0 })
